@@ -27,7 +27,7 @@
 (*                            one more batch was applied to the reopened   *)
 (*                            index and it was observed again              *)
 (***************************************************************************)
-EXTENDS Naturals, Sequences, FiniteSets, TLC, IOUtils, Json, ScorchOps
+EXTENDS Integers, Sequences, FiniteSets, TLC, IOUtils, Json, ScorchOps
 
 Trace == ndJsonDeserialize(IOEnv.VERIF_TRACE)
 
@@ -127,6 +127,20 @@ PointsHonourKeep == (IsPoints /\ J.settled) => Len(J.seqs) <= J.keep
 \* the source of an online copy is unaffected: it still holds everything introduced
 IsSource == l > 1 /\ J.ev = "SourceAfter"
 SourceUnaffected == IsSource => (DocsOf(J.docs) = Replay(Len(io)) /\ J.seq = (IF Len(io) = 0 THEN 0 ELSE io[Len(io)]))
+
+\* C13 / C03, at the step: when the persister merges the in-memory segments of the
+\* snapshot it took, it records an EQUIVALENT snapshot under the epoch it took
+\* (ScorchDisk!PMMCommit).  Equivalent: same epoch, same internal values, the file
+\* segments unchanged, the new segments without deletions, the same number of
+\* live documents.  segs = [[id, count, deleted, isfile], ...]
+IsEquiv == l > 1 /\ J.ev = "MemMergeEquiv"
+RECURSIVE LiveCount(_)
+LiveCount(segs) == IF segs = <<>> THEN 0 ELSE (Head(segs)[2] - Head(segs)[3]) + LiveCount(Tail(segs))
+EquivIsTheTakenState == IsEquiv =>
+   /\ J.eepoch = J.sepoch /\ J.eseq = J.sseq
+   /\ LiveCount(J.esegs) = LiveCount(J.ssegs)
+   /\ \A i \in DOMAIN J.ssegs : J.ssegs[i][4] = 1 => \E j \in DOMAIN J.esegs : J.esegs[j] = J.ssegs[i]
+   /\ \A j \in DOMAIN J.esegs : (\A i \in DOMAIN J.ssegs : J.ssegs[i][1] # J.esegs[j][1]) => J.esegs[j][3] = 0
 
 \* the observation is self-consistent (C01 on the reopened index)
 RecoveredConsistent == (IsRec /\ J.opened) =>
